@@ -205,7 +205,7 @@ func (g *Gen) selector(e *R, d int) *R {
 	case n == 10:
 		return proj(PFlatten, e, g.rhs(d, 8))
 	case n == 11 || n == 12:
-		return filt(e, g.cond(d), g.rhs(d, 10))
+		return filt(e, g.cond(d), g.rhs(d, 9))
 	case n == 13 && !g.NoValues:
 		return proj(PValues, e, g.rhs(d, 9))
 	case n == 14 && d > 0:
@@ -252,7 +252,7 @@ func (g *Gen) rhs(d int, stop int) *R {
 		case k == 7:
 			return proj(PList, e, g.rhs(d-1, 9))
 		case k == 8 && stop < 10:
-			return filt(e, g.cond(d-1), g.rhs(d-1, 10))
+			return filt(e, g.cond(d-1), g.rhs(d-1, 9))
 		case k == 9 && !g.NoValues:
 			return proj(PValues, e, g.rhs(d-1, 9))
 		case k == 10:
@@ -274,7 +274,7 @@ func (g *Gen) chain(d int) *R {
 		if rng.Intn(3) > 0 {
 			r := sub(cur(), fld(pick(fieldNames)))
 			if rng.Intn(3) == 0 {
-				r = g.rhs(d, 10)
+				r = g.rhs(d, 9)
 			}
 			switch rng.Intn(5) {
 			case 0:
